@@ -190,6 +190,12 @@ func c18Ops(thorough bool) []c18Op {
 		{Name: "CopyObject REPLACE", Req: func(map[string]string) *gw.Req {
 			return NewReq("PUT", gw.ObjPath(c18B, "copy"), "", H("x-amz-copy-source", c18B+"/k1", "x-amz-metadata-directive", "REPLACE", "x-amz-meta-new", "n", "Content-Type", "text/replaced"), nil)
 		}},
+		{Name: "PutObject key with + and %", Req: func(map[string]string) *gw.Req {
+			return NewReq("PUT", gw.ObjPath(c18B, "a+b %c"), "", nil, []byte("plus-percent"))
+		}},
+		{Name: "CopyObject from key with + and %", Req: func(map[string]string) *gw.Req {
+			return NewReq("PUT", gw.ObjPath(c18B, "copy2"), "", H("x-amz-copy-source", c18B+"/"+gw.URIEncode("a+b %c", false)), nil)
+		}},
 		{Name: "DeleteObject", Req: func(map[string]string) *gw.Req { return NewReq("DELETE", gw.ObjPath(c18B, "k1"), "", nil, nil) }},
 		{Name: "DeleteObjects", Req: func(map[string]string) *gw.Req {
 			return NewReq("POST", "/"+c18B, "delete", nil, []byte("<Delete><Object><Key>k1</Key></Object><Object><Key>nope</Key></Object></Delete>"))
@@ -273,6 +279,9 @@ func c18Observers(st map[string]string) []*gw.Req {
 		NewReq("GET", "/"+c18B, "", nil, nil),
 		NewReq("GET", "/"+c18B, gw.Q("list-type", "2", "delimiter", "/"), nil, nil),
 		NewReq("GET", "/"+c18B, gw.Q("list-type", "2", "max-keys", "1"), nil, nil),
+		NewReq("GET", "/"+c18B, gw.Q("list-type", "2", "max-keys", "0"), nil, nil),
+		NewReq("GET", "/"+c18B, gw.Q("max-keys", "0"), nil, nil),
+		NewReq("GET", gw.ObjPath(c18B, "copy2"), "", nil, nil),
 		NewReq("GET", "/"+c18B, gw.Q("prefix", "dir/"), nil, nil),
 		NewReq("GET", "/"+c18B, "uploads", nil, nil),
 		NewReq("GET", gw.ObjPath(c18B, "mp"), gw.Q("uploadId", orDash(st["upload"])), nil, nil),
@@ -410,7 +419,7 @@ func C18(r *ck.Run) {
 	if r.Thorough() {
 		depth = 3
 	}
-	r.Rule(fmt.Sprintf("every program of length <= %d over 26 (30 thorough) bucket, object, tagging, policy, listing and multipart operations (three of them signed with a wrong secret) is executed twice from an empty store: through a gateway whose backend is s3proxy pointed at an endpoint process (a posix versitygw on loopback TCP), and against that endpoint directly; after every step 23 read requests (GET whole / ranges, HEAD, attributes, tagging, listings v1/v2 with prefix / delimiter / max-keys, uploads, parts, bucket tagging / policy / ACL / versioning) are issued on both sides and every response (status, error code, content headers, user metadata, ETag, body with timestamps and ids masked) must be equal; callers: root and a userplus account that owns the bucket; distinct = (caller, program)", depth))
+	r.Rule(fmt.Sprintf("every program of length <= %d over 28 (32 thorough) bucket, object, tagging, policy, listing and multipart operations (three of them signed with a wrong secret) is executed twice from an empty store: through a gateway whose backend is s3proxy pointed at an endpoint process (a posix versitygw on loopback TCP), and against that endpoint directly; after every step 26 read requests (GET whole / ranges, HEAD, attributes, tagging, listings v1/v2 with prefix / delimiter / max-keys, uploads, parts, bucket tagging / policy / ACL / versioning) are issued on both sides and every response (status, error code, content headers, user metadata, ETag, body with timestamps and ids masked) must be equal; callers: root and a userplus account that owns the bucket; distinct = (caller, program)", depth))
 	r.Assume("the 'other S3 endpoint' is versitygw itself (posix backend) in a child process; error documents are compared by status and code only")
 	ops := c18Ops(r.Thorough())
 	var progs [][]int
